@@ -86,7 +86,9 @@ impl Ent {
 
 #[derive(Clone, Debug, Serialize, Deserialize)]
 pub enum Op {
-    StartWait { ws: u8, timeout_ms: u16 },
+    /// start `wait(timeout)` as a concurrent task; the application task then yields `lead` times to the
+    /// executor before its next operation, so that the wait is a generated number of steps ahead
+    StartWait { ws: u8, timeout_ms: u16, lead: u8 },
     Write,
     /// a second writer appears / disappears: SUBSCRIPTION_MATCHED changes on R1 and R2
     CreateW2,
@@ -140,7 +142,7 @@ pub fn strategy(thorough: bool) -> BoxedStrategy<C32Case> {
             let set_enabled = (0..n).prop_flat_map(move |i| (Just(i as u8), submask(ents2[i].valid_mask()))).prop_map(|(cond, mask)| Op::SetEnabled { cond, mask });
             let timeouts = prop_oneof![Just(20u16), Just(100), Just(300), Just(1000), Just(2000)];
             let op = prop_oneof![
-                5 => (0u8..2, timeouts).prop_map(|(ws, timeout_ms)| Op::StartWait { ws, timeout_ms }),
+                5 => (0u8..2, timeouts, prop_oneof![2 => Just(0u8), 3 => 1u8..8]).prop_map(|(ws, timeout_ms, lead)| Op::StartWait { ws, timeout_ms, lead }),
                 5 => Just(Op::Write),
                 1 => Just(Op::CreateW2),
                 1 => Just(Op::DeleteW2),
@@ -322,7 +324,7 @@ async fn scenario(c: C32Case) -> Hist {
         let now = exec::now_ns();
         let mut settle_ms = 2;
         match op {
-            Op::StartWait { ws, timeout_ms } => {
+            Op::StartWait { ws, timeout_ms, lead } => {
                 let wsi = *ws as usize % waitsets.len();
                 if let Some(i) = pending.get(&(wsi as u8)) {
                     if !handles.iter().any(|(j, hd)| j == i && hd.is_done()) {
@@ -354,7 +356,10 @@ async fn scenario(c: C32Case) -> Hist {
                 h.waits.push(WaitRec { ws: wsi as u8, start_ns: now, start_idx: h.events.len(), timeout_ms: *timeout_ms, done_ns: None, result: Err("pending".into()) });
                 pending.insert(wsi as u8, idx);
                 handles.push((idx, hd));
-                // no settling: the next operation races with the first steps of this wait
+                // no settling: the next operation races with the steps of this wait (trigger checks, registrations)
+                for _ in 0..*lead {
+                    exec::yield_now().await;
+                }
                 continue;
             }
             Op::Write => {
